@@ -29,6 +29,7 @@ type kase struct {
 	Start int    `json:"start,omitempty"`
 	End   int    `json:"end,omitempty"`
 	Same  bool   `json:"dst_is_src,omitempty"`
+	Used  int    `json:"dst_used,omitempty"` // dst != src: 0 a fresh destination, 1 one that already holds a longer result (circular, offset 5), 2 a one-letter result
 	L2    int    `json:"len2,omitempty"`
 	Circ2 bool   `json:"circular2,omitempty"`
 	Where int    `json:"where,omitempty"`
@@ -78,6 +79,12 @@ func mk(k kase, n, off int, circ bool, shift int) sq {
 }
 
 func empty(k kase) sq {
+	switch k.Used {
+	case 1:
+		return mk(k, k.L+3, 5, true, 7)
+	case 2:
+		return mk(k, 1, -1, false, 9)
+	}
 	if k.Q {
 		return linear.NewQSeq("d", nil, k.alpha(), alphabet.Sanger)
 	}
@@ -366,7 +373,7 @@ func check(c *enum.Ctx, k kase) {
 }
 
 func run(c *enum.Ctx) {
-	c.Rule("Truncate: every (start,end) in [off-2,off+L+2]^2 for L=0..5 (thorough 6), offsets {-2,0,3}, linear/circular, dst==src and dst!=src, linear.Seq and linear.QSeq; Join: all length pairs 0..3 x both ends x conformations; Stitch/Compose: every list of <=2 (thorough 3) features whose interval intersects or abuts the sequence within [off-1,off+L+1], orientation forward/reverse/none/not-an-Orienter, complementing (DNAredundant) and non-complementing (Protein) alphabets, dst==src or not, L=0..4; Trim: every vector of length 0..6 (thorough 7) over (limit-e) in {-2,-1,0,1,2}/4 at offsets {0,3}; all positions carry distinct letters (and qualities); non-trivial = cases where the operation is expected to succeed on a non-empty result")
+	c.Rule("Truncate: every (start,end) in [off-2,off+L+2]^2 for L=0..5 (thorough 6), offsets {-2,0,3}, linear/circular, dst==src, a fresh dst and a dst that already holds an earlier (longer circular / one-letter) result, linear.Seq and linear.QSeq; Join: all length pairs 0..3 x both ends x conformations; Stitch/Compose: every list of <=2 (thorough 3) features whose interval intersects or abuts the sequence within [off-1,off+L+1], orientation forward/reverse/none/not-an-Orienter, complementing (DNAredundant) and non-complementing (Protein) alphabets, both sequence types, dst==src / fresh / previously used, L=0..4; Trim: every vector of length 0..6 (thorough 7) over (limit-e) in {-2,-1,0,1,2}/4 at offsets {0,3}; all positions carry distinct letters (and qualities); non-trivial = cases where the operation is expected to succeed on a non-empty result")
 	c.Assume("Compose features are at least abutting the sequence (a feature entirely outside is out of scope)", "Trim: an empty window is accepted anywhere; values are dyadic so sums are exact")
 	maxL, maxF, maxT := 5, 2, 6
 	if !c.Quick {
@@ -381,6 +388,9 @@ func run(c *enum.Ctx) {
 						for e := off - 2; e <= off+L+2; e++ {
 							for _, same := range []bool{false, true} {
 								cases = append(cases, kase{Kind: "truncate", Q: q, L: L, Off: off, Circ: circ, Start: s, End: e, Same: same})
+							}
+							for used := 1; used <= 2; used++ {
+								cases = append(cases, kase{Kind: "truncate", Q: q, L: L, Off: off, Circ: circ, Start: s, End: e, Used: used})
 							}
 						}
 					}
@@ -416,18 +426,19 @@ func run(c *enum.Ctx) {
 		q, prot    bool
 		L, off     int
 		same, circ bool
+		used       int
 	}
 	var cfgs []cfg
 	for _, kind := range []string{"stitch", "compose"} {
 		for _, q := range []bool{false, true} {
 			for _, prot := range []bool{false, true} {
-				if prot && q {
-					continue
-				}
 				for L := 0; L <= 4; L++ {
 					for _, off := range []int{-2, 0, 3} {
 						for _, same := range []bool{false, true} {
-							cfgs = append(cfgs, cfg{kind, q, prot, L, off, same, L == 3 && off == 0})
+							cfgs = append(cfgs, cfg{kind, q, prot, L, off, same, L == 3 && off == 0, 0})
+						}
+						if off != -2 {
+							cfgs = append(cfgs, cfg{kind, q, prot, L, off, false, false, 1 + (L+off)%2})
 						}
 					}
 				}
@@ -454,7 +465,7 @@ func run(c *enum.Ctx) {
 		}
 		var rec func(prefix []fdef)
 		rec = func(prefix []fdef) {
-			k := kase{Kind: g.kind, Q: g.q, Prot: g.prot, L: g.L, Off: g.off, Same: g.same, Circ: g.circ, Feats: append([]fdef{}, prefix...)}
+			k := kase{Kind: g.kind, Q: g.q, Prot: g.prot, L: g.L, Off: g.off, Same: g.same, Circ: g.circ, Used: g.used, Feats: append([]fdef{}, prefix...)}
 			c.Eval()
 			check(c, k)
 			if len(prefix) > 0 {
